@@ -140,6 +140,43 @@ def explore(chk, pycaption):
                 chk.correspondence_failure(dict(case, impl=str(impl), model=M), "reading a region's attributes: implementation and model differ")
 
 
+def explore_inherited_alignment(chk, pycaption):
+    """DFXP documents whose paragraphs share one region and differ in their own `tts:textAlign`; every paragraph holds a span
+    without alignment of its own.  The text inside the span is aligned like its paragraph (own alignment, else the region's),
+    whatever was resolved for an earlier paragraph of the same region"""
+    sub = chk.sub("dfxp_alignment_inherited_by_spans")
+    for k_ in range(30 if chk.tier == "quick" else 800):
+        region_al = sub.choice(["left", "center", "right"])
+        paras = []
+        for j in range(sub.randint(2, 4)):
+            own = sub.choice([None, None, "left", "center", "right", "start", "end"])
+            paras.append((own, sub.choice(["", ' tts:fontStyle="italic"', ' tts:color="red"']), sub.choice(["hi", "there", "x"]) + str(j)))
+        body = "".join('<p begin="00:00:%02d.000" end="00:00:%02d.500" region="r1"%s>lead%d <span%s>%s</span> tail</p>'
+                       % (2 * j + 1, 2 * j + 1, (' tts:textAlign="%s"' % own) if own else "", j, sp, w) for j, (own, sp, w) in enumerate(paras))
+        doc = ('<?xml version="1.0" encoding="utf-8"?>\n<tt xml:lang="en" xmlns="http://www.w3.org/ns/ttml" xmlns:tts="http://www.w3.org/ns/ttml#styling">'
+               '<head><layout><region xml:id="r1" tts:origin="10%% 10%%" tts:extent="60%% 20%%" tts:textAlign="%s" tts:displayAlign="before"/></layout></head>'
+               '<body><div>%s</div></body></tt>') % (region_al, body)
+        case = {"document": doc}
+        chk.case(key=("inherited-align", doc), nontrivial=True); chk.count("dfxp_inherited_alignment_documents")
+        try:
+            cs = core.POOL.get(pycaption.DFXPReader).read(doc)
+            caps = cs.get_captions("en")
+        except Exception as e:
+            chk.property_failure(dict(case, error=repr(e)[:300]), "DFXP reader raised on paragraphs sharing a region"); continue
+        for (own, sp, w), cap in zip(paras, caps):
+            want = own or region_al
+            got = []
+            for n in cap.nodes:
+                L = n.layout_info
+                got.append(None if L is None or L.alignment is None or L.alignment.horizontal is None else L.alignment.horizontal.value)
+            capL = cap.layout_info
+            got_cap = None if capL is None or capL.alignment is None or capL.alignment.horizontal is None else capL.alignment.horizontal.value
+            if got_cap != want or any(g != want for g in got):
+                chk.property_failure(dict(case, paragraph=w, expected_alignment=want, caption_alignment=got_cap, node_alignments=got),
+                                     "dfxp: the text of a paragraph (its span included) is not aligned as the paragraph says (own tts:textAlign, else the region's)")
+                break
+
+
 def expected_back(d, L):
     """from the property's wording, with the harness' own arithmetic: sizes rounded half-even to hundredths (what a
     two-decimal print keeps), absent parts absent, alignment parts defaulting to start / bottom"""
